@@ -345,6 +345,6 @@ class G:
         recs = [self.render_record(n, ings, (), varied) for n, ings in book]
         return self.render_file(recs, varied, crlf)
 
-    def render_log(self, log, layout='2006/01/02', varied=True, crlf=None):
+    def render_log(self, log, layout='2006/01/02', varied=True, crlf=None, final_nl=None):
         recs = [self.render_record(fmt_date_layout(d, layout).encode(), ents, ns, varied) for d, ents, ns in log]
-        return self.render_file(recs, varied, crlf)
+        return self.render_file(recs, varied, crlf, final_nl)
